@@ -72,6 +72,7 @@ class Skeleton:
         self.cons: list[Con] = []
         self.probs: list[Prob] = []
         self.solves: list[ast.AST] = []
+        self.returned: list[str] = []
         self.og = origins(f)
         self._walk(f.node.body, [], [])
         self._link()
@@ -129,6 +130,8 @@ class Skeleton:
             self._scan_expr(st.value, st, stack, conds)
             return
         if isinstance(st, ast.Return) and st.value is not None:
+            if isinstance(st.value, ast.Name):
+                self.returned.append(st.value.id)
             self._scan_expr(st.value, st, stack, conds)
 
     def _var_from_call(self, call):
@@ -306,6 +309,9 @@ class Skeleton:
         names = set()
         for p in probs:
             names.update(p.containers)
+        if not prob:
+            # a constraint list that is the function's result reaches the caller's problem
+            names.update(self.returned)
         changed = True
         while changed:
             changed = False
